@@ -70,6 +70,14 @@ def judge_cp(case):
         v.append(core.viol("C13/cooling_additive", "h(%r,%r)+h(%r,%r)=%r but h(%r,%r)=%r" % (t0, t1, t1, t2, h(t0, t1) + h(t1, t2), t0, t2, h(t0, t2))))
     if not abs(h(t0, t1) + h(t1, t0)) <= core.ULP * scale(t0, t1):
         v.append(core.viol("C13/cooling_antisymmetric", "h(%r,%r)=%r, h(%r,%r)=%r" % (t0, t1, h(t0, t1), t1, t0, h(t1, t0))))
+    # the cooling heat IS the integral of the specific heat: Simpson's rule is exact for a cubic, also on tiny intervals
+    for a_, b_ in ((t0, t1), (t1, t2), (t0, t0 - 1e-3), (t2, t2 + 1e-3), (t1, t1 - 1e-6), (t0, t0 + 7e-3)):
+        simpson = (a_ - b_) / 6 * (float(comp.get_specific_heat(b_)) + 4 * float(comp.get_specific_heat((a_ + b_) / 2)) + float(comp.get_specific_heat(a_)))
+        if not abs(h(a_, b_) - simpson) <= 1e-11 * scale(a_, b_) + 1e-9 * abs(simpson):
+            v.append(core.viol("C13/cooling_integral", "cooling heat between %r and %r is %r, the integral of the specific heat is %r" % (a_, b_, h(a_, b_), simpson)))
+            break
+    if not abs(h(t0, t0 - 1e-3) + h(t0 - 1e-3, t1) - h(t0, t1)) <= core.ULP * scale(t0, t1) * 4:
+        v.append(core.viol("C13/cooling_additive", "not additive when one sub-interval is 1 mK: h(%r,%r)+h(%r,%r) vs h(%r,%r)" % (t0, t0 - 1e-3, t0 - 1e-3, t1, t0, t1)))
     if h(t1, t1) != 0.0:
         v.append(core.viol("C13/cooling_empty_interval", "h(%r,%r)=%r" % (t1, t1, h(t1, t1))))
     # derivative with respect to the upper limit (first argument) = Cp
